@@ -3,6 +3,7 @@
 -/
 import ChessVerif.Model.Eval
 import ChessVerif.Lemmas.EvalEndgame
+import ChessVerif.Lemmas.Shows
 namespace Chess.Props
 
 /-- operations on one long-lived evaluator: evaluate a position, or `clear()` (ucinewgame) -/
@@ -141,5 +142,11 @@ example : Spec.wf (absPos c14Start) = true ∧ Spec.wf (absPos c14Queens) = true
 theorem C14_cap_partial (v : Int) : min v (VALUE_MATE - 1) < VALUE_MATE := by
   have : VALUE_MATE = 640000 := by decide
   omega
+
+/-- **C14 on every position of every legal game from the initial position** (`Spec.wf` is an invariant of legal play, Lemmas/WfStep.lean):
+    the evaluation is a real value strictly inside the mate range -/
+theorem C14_reachable (p : Position) (ms : List Spec.SMove) (h : Shows p ms) :
+    evalPure p ≠ VALUE_NONE ∧ ((evalPure p).natAbs : Int) < VALUE_MATE - Gen.MAX_DEPTH :=
+  C14_bounded p (wf_of_shows p ms h)
 
 end Chess.Props
